@@ -224,7 +224,7 @@ def path_feasible(pv, hyp=None):
             d = poly.to_rf(ctx, a) - poly.to_rf(ctx, b)
             if d.d is not None:
                 continue
-            cv = d.n.reduce().const_value()
+            cv = d.n.reduce(full=True).const_value()
         except Exception:
             continue
         if cv is None:
